@@ -1,7 +1,7 @@
 """Contracts for sedfitter/fit_info.py: FitInfo.sort (C04), FitInfo.keep (C05)."""
 from sedvc.contractlib import Contract, contract
 from sedvc.sym import Sc, compare, band, bor, bnot, implies, ite, arith, fresh_int, smin
-from sedvc.values import Opaque
+from sedvc.values import Opaque, Quantity
 from .source import make_source, source_arrays, SOURCE
 
 FITINFO = 'sedfitter.fit_info.FitInfo'
@@ -219,27 +219,67 @@ class FilterTable(Contract):
     def raises(self, c, a):
         return {'Exception': ('may', True), 'IndexError': ('may', True)}
 
+    def _in_cols(self, c, a, ctx):
+        """columns of the input table (set-up's while verifying the body; the caller's table at a call site)"""
+        if hasattr(self, 'cols'):
+            return self.cols, self.root
+        cell = ctx.st.heap[a.input_table.addr]
+        return cell.attrs['@cols'], cell.attrs['@root']
+
+    def _add_fns(self, c, a):
+        """additional parameters: name -> function of the stripped model-name code"""
+        if hasattr(self, 'cols'):
+            return {'extra': self.add_fn} if hasattr(self, 'add_fn') and c.st.heap[a.additional.addr].items else {}
+        out = {}
+        from sedvc.values import DictRef, ObjRef
+        if isinstance(a.additional, DictRef):
+            for k, v in c.st.heap[a.additional.addr].items.items():
+                if isinstance(v, ObjRef) and c.st.heap[v.addr].cls == '<fnmap>':
+                    out[k] = c.st.heap[v.addr].attrs['fn']
+        return out
+
+    def result(self, c, a):
+        # at a call site: a fresh table with one row per fit, related to the input table by `ensures`
+        import z3
+        from sedvc.extmodels import table_new
+        from sedvc.sym import fresh_name, to_z3
+        cols, root = self._in_cols(c, a, c)
+        M = c.A(c.attr(a.self, 'model_name')).n
+        tag = fresh_name('ftab')
+        ORG = z3.Function(tag + '_origin', z3.IntSort(), z3.IntSort())
+        new = {}
+        for k, v in cols.items():
+            inner = v.value if isinstance(v, Quantity) else v
+            shape, kind = c.A(inner).shape, c.st.heap[inner.addr].kind if hasattr(inner, 'addr') else getattr(inner, 'kind', 'real')
+            arr = c.fresh_array('%s_%s' % (tag, k), (M,) + tuple(shape[1:]), kind)
+            new[k] = Quantity(arr, v.unit) if isinstance(v, Quantity) else arr
+        for k in self._add_fns(c, a):
+            new[k] = c.fresh_array('%s_%s' % (tag, k), (M,))
+        return table_new(c.st, new, M, origin=lambda k: Sc(ORG(to_z3(k, 'int'))), root=root)
+
     def ensures(self, c, a, result, old):
         from sedvc.extmodels import is_table, strip_code
         if not is_table(c.st, result):
             return {'returns_a_table': False}
+        in_cols, root = self._in_cols(c, a, old if old is not None else c)
         cell = c.st.heap[result.addr]
         cols, n, origin = cell.attrs['@cols'], cell.attrs['@n'], cell.attrs['@origin']
         names = c.A(c.attr(a.self, 'model_name'))
         M = names.n
-        R = c.A(self.cols['MODEL_NAME']).n
-        out = {'taken_from_the_input_table': cell.attrs['@root'] == self.root,
+        inner = lambda v: v.value if isinstance(v, Quantity) else v
+        R = c.A(inner(in_cols['MODEL_NAME'])).n
+        out = {'taken_from_the_input_table': cell.attrs['@root'] == root,
                'one_row_per_fit': compare('==', n, M),
-               'row_of_fit_i_is_named_like_fit_i': c.forall(M, lambda i: c.A(cols['MODEL_NAME'])[i] == names[i], 'name'),
+               'row_of_fit_i_is_named_like_fit_i': c.forall(M, lambda i: c.A(inner(cols['MODEL_NAME']))[i] == names[i], 'name'),
                'source_row_exists': c.forall(M, lambda i: band(origin(i) >= 0, origin(i) < R), 'origin in range')}
-        for k, v in self.cols.items():
+        for k, v in in_cols.items():
             if k not in cols:
                 out['column_kept(%s)' % k] = False
                 continue
-            out['entire_row(%s)' % k] = c.forall(M, (lambda O, I: lambda i: O[i] == I[origin(i)])(c.A(cols[k]), c.A(v)), 'row')
-        extra = [k for k in cols if k not in self.cols]
-        if hasattr(self, 'add_fn') and c.st.heap[a.additional.addr].items:
-            out['additional_by_name'] = ('extra' in cols) and c.forall(M, lambda i: c.A(cols['extra'])[i] == self.add_fn(strip_code(names[i])), 'additional')
-            extra = [k for k in extra if k != 'extra']
+            out['entire_row(%s)' % k] = c.forall(M, (lambda O, I: lambda i: O[i] == I[origin(i)])(c.A(inner(cols[k])), c.A(inner(v))), 'row')
+        extra = [k for k in cols if k not in in_cols]
+        for k, fn in self._add_fns(c, a).items():
+            out['additional_by_name(%s)' % k] = (k in cols) and c.forall(M, (lambda fn, col: lambda i: col[i] == fn(strip_code(names[i])))(fn, c.A(cols[k]) if k in cols else None), 'additional')
+            extra = [x for x in extra if x != k]
         out['no_other_columns'] = not extra
         return out
